@@ -240,7 +240,7 @@ class RaiseAnalysis:
             try_node = next((t for t, part in point.context if part == "handler"), None)
             if try_node is None:
                 return set()
-            return self.arriving(func, point.handler, try_node)
+            return self._narrowed_by_isinstance(func, point, self.arriving(func, point.handler, try_node))
         if point.kind in ("raise", "ext"):
             return set(point.classes)
         if point.kind == "call" and point.site is not None:
@@ -249,6 +249,35 @@ class RaiseAnalysis:
                 out |= self.escapes.get(target.qualname, set())
             return out
         return set()
+
+    def _narrowed_by_isinstance(self, func: FuncInfo, point: RaisePoint, classes: Set[str]) -> Set[str]:
+        """A re-raise under ``isinstance(<the caught exception>, C)`` (directly or through a local that holds
+        the test) re-raises only the caught classes that are C; under ``not isinstance`` only the others."""
+        from sa.util import guards_of
+
+        handler = point.handler
+        if handler is None or not handler.name:
+            return classes
+
+        def isinstance_classes(test: ast.AST) -> Optional[List[str]]:
+            if isinstance(test, ast.Name):
+                values = [n.value for n in walk_local(func.node) if isinstance(n, ast.Assign) and any(isinstance(t, ast.Name) and t.id == test.id for t in n.targets)]
+                if len(values) == 1:
+                    return isinstance_classes(values[0])
+                return None
+            if isinstance(test, ast.Call) and isinstance(test.func, ast.Name) and test.func.id == "isinstance" and len(test.args) == 2 and isinstance(test.args[0], ast.Name) and test.args[0].id == handler.name:
+                wanted = test.args[1].elts if isinstance(test.args[1], ast.Tuple) else [test.args[1]]
+                return [(dotted(w) or "").split(".")[-1] for w in wanted]
+            return None
+
+        out = set(classes)
+        for test, polarity in guards_of(func.node, point.node):
+            wanted = isinstance_classes(test)
+            if wanted is None:
+                continue
+            matching = {c for c in out if any(self.is_subclass(c.split("@")[0], w) for w in wanted)}
+            out = matching if polarity else out - matching
+        return out
 
     def _solve(self) -> None:
         funcs = list(self.prog.iter_functions())
